@@ -6,9 +6,20 @@ import (
 
 // A tiny forward dataflow engine over instruction sequences with inlining of
 // the (few, small) helper functions and closures of the analysed function.
-// The abstract state is a bit set (uint64) whose join is union, so every rule
+// The abstract state is a bit set (bits, 128 wide) whose join is union, so every rule
 // using it is a may-analysis over paths: a set bit means "some path reaches
 // here in that abstract configuration". 0 = unreachable.
+
+// bits is a 128-bit set.
+type bits [2]uint64
+
+func (a bits) or(b bits) bits { return bits{a[0] | b[0], a[1] | b[1]} }
+func (a bits) isZero() bool   { return a[0] == 0 && a[1] == 0 }
+func (a bits) has(i int) bool { return a[i>>6]&(1<<uint(i&63)) != 0 }
+func (a bits) with(i int) bits {
+	a[i>>6] |= 1 << uint(i&63)
+	return a
+}
 
 type frame struct {
 	fn     *ssa.Function
@@ -47,25 +58,25 @@ type flow struct {
 	inScope map[*ssa.Function]bool
 	// instr is the transfer function of one instruction (calls that are inlined
 	// are not passed to it).
-	instr func(f *frame, in ssa.Instruction, s uint64) uint64
+	instr func(f *frame, in ssa.Instruction, s bits) bits
 	// edge refines / transforms the state along CFG edge from → from.Succs[succ].
-	edge func(f *frame, from *ssa.BasicBlock, succ int, s uint64) uint64
+	edge func(f *frame, from *ssa.BasicBlock, succ int, s bits) bits
 	// opaque is called for calls that could have been inlined but were not
 	// (recursion, depth): the rule must be conservative there.
-	opaque func(f *frame, c ssa.CallInstruction, s uint64) uint64
+	opaque func(f *frame, c ssa.CallInstruction, s bits) bits
 }
 
 // run analyses fr.fn from the entry state and returns the join of the states at its returns.
-func (fl *flow) run(fr *frame, entry uint64) uint64 {
+func (fl *flow) run(fr *frame, entry bits) bits {
 	fn := fr.fn
-	if len(fn.Blocks) == 0 || entry == 0 {
+	if len(fn.Blocks) == 0 || entry.isZero() {
 		return entry
 	}
-	in := make([]uint64, len(fn.Blocks))
+	in := make([]bits, len(fn.Blocks))
 	in[0] = entry
 	work := []*ssa.BasicBlock{fn.Blocks[0]}
 	queued := map[*ssa.BasicBlock]bool{fn.Blocks[0]: true}
-	var exit uint64
+	var exit bits
 	iter := 0
 	for len(work) > 0 && iter < 20000 {
 		iter++
@@ -73,11 +84,11 @@ func (fl *flow) run(fr *frame, entry uint64) uint64 {
 		work = work[1:]
 		queued[b] = false
 		s := in[b.Index]
-		if s == 0 {
+		if s.isZero() {
 			continue
 		}
 		for _, ins := range b.Instrs {
-			if s == 0 {
+			if s.isZero() {
 				break
 			}
 			if c, ok := ins.(ssa.CallInstruction); ok {
@@ -91,17 +102,17 @@ func (fl *flow) run(fr *frame, entry uint64) uint64 {
 							}
 						}
 						if len(inl) > 0 && len(inl) == len(targets) {
-							var res uint64
+							var res bits
 							for _, g := range inl {
 								if fr.active(g) || fr.depth() >= 4 {
 									if fl.opaque != nil {
-										res |= fl.opaque(fr, c, s)
+										res = res.or(fl.opaque(fr, c, s))
 									} else {
-										res |= s
+										res = res.or(s)
 									}
 									continue
 								}
-								res |= fl.run(&frame{fn: g, call: c, parent: fr}, s)
+								res = res.or(fl.run(&frame{fn: g, call: c, parent: fr}, s))
 							}
 							s = res
 							continue
@@ -110,11 +121,11 @@ func (fl *flow) run(fr *frame, entry uint64) uint64 {
 				}
 			}
 			if _, ok := ins.(*ssa.Return); ok {
-				exit |= s
+				exit = exit.or(s)
 			}
 			s = fl.instr(fr, ins, s)
 		}
-		if s == 0 {
+		if s.isZero() {
 			continue
 		}
 		for i, succ := range b.Succs {
@@ -122,8 +133,8 @@ func (fl *flow) run(fr *frame, entry uint64) uint64 {
 			if fl.edge != nil {
 				e = fl.edge(fr, b, i, s)
 			}
-			if e|in[succ.Index] != in[succ.Index] {
-				in[succ.Index] |= e
+			if e.or(in[succ.Index]) != in[succ.Index] {
+				in[succ.Index] = in[succ.Index].or(e)
 				if !queued[succ] {
 					queued[succ] = true
 					work = append(work, succ)
